@@ -1,4 +1,4 @@
-"""C03 - eigenvalue, Schur and singular value routines satisfy their identities.
+"""C03 - eigenvalue, Schur, singular value and generalized routines satisfy their identities.
 
 R1  TLC checks on the bounded case space the identities that make the printed spectra exact
     (orthogonality of the planted factors, A*Q0 = Q0*D, A*V0 = U0*S, S*S^-1 = I, A*S = S*B,
@@ -6,7 +6,13 @@ R1  TLC checks on the bounded case space the identities that make the printed sp
 R2  spec->code: PlantedSpectral.tla prints exactly representable matrices with their exact spectrum
     in the documented order, exact vectors of simple values, exact gaps and the factors of the
     property's tolerance (Weyl; Bauer-Fike with kappa(S)); the harness replays them through
-    lapack/gonum.Implementation, lapack64 and mat under job / ld / lwork / block-size variation.
+    lapack/gonum.Implementation, lapack64 and mat under job / ld / lwork / block-size variation
+    (lwork in {minimum, optimum, optimum+1, optimum+ld*n, 2*optimum+7, huge}, ld in {n, n+1, n+3}).
+R2g generalized routines (Dgghrd, Dggsvp3, Dggsvd3, Dtgsja), the WEAKER binding: their factors are
+    not unique, so GenPred.tla states the documented identity as a predicate over exact rationals,
+    GenSpectralLemmas.tla has TLC check it on exactly known decompositions and mutations, and the
+    harness evaluates the same formulas exactly on gonum's output for the integer instances of
+    GenSpectral.tla (exact ranks and structure preconditions come from the specification).
 """
 import os
 
@@ -38,6 +44,26 @@ COND_LEMMA = {"tri": {"quick": 7, "thorough": 9}, "bid": {"quick": 7, "thorough"
 FORCED = {"quick": [(2, 0), (3, 2)], "thorough": [(1, 0), (2, 0), (3, 0), (4, 0), (2, 2), (3, 2), (5, 0)]}
 
 
+# generalized routines (GenSpectral.tla / GenPred.tla): (Small, Vars) per tier
+GEN = {
+    "gghrd": {"quick": (5, 6), "thorough": (6, 12)},
+    "ggsvd": {"quick": (4, 8), "thorough": (5, 16)},
+    "tgsja": {"quick": (4, 2), "thorough": (5, 3)},
+}
+
+
+GEN_LEMMA = {
+    "gghrd": {"quick": (4, 6), "thorough": (6, 6)},
+    "ggsvd": {"quick": (4, 8), "thorough": (5, 8)},
+    "tgsja": {"quick": (3, 2), "thorough": (5, 1)},
+}
+
+
+def gen_subst(fam, tier, seed, table=None):
+    small, nvars = (table or GEN)[fam][tier]
+    return dict(FAM=fam, SMALL=small, VARS=nvars, SEED=seed)
+
+
 def enc(shapes):
     return "{" + ", ".join(str(m * 1000 + n) for m, n in shapes) + "}"
 
@@ -57,19 +83,25 @@ def run(ctx):
                  [(lambda fam=fam: ctx.tlc("spectral/CondensedSpectralLemmas.tla", "spectral/CondensedSpectralLemmas.cfg",
                                             name="R1 CondensedSpectralLemmas %s" % fam,
                                             subst=dict(FAM=fam, SMALL=COND_LEMMA[fam][ctx.tier], BIG="{}", SEED=ctx.seed), workers=2))
-                  for fam in COND])
+                  for fam in COND] +
+                 [(lambda fam=fam: ctx.tlc("spectral/GenSpectralLemmas.tla", "spectral/GenSpectralLemmas.cfg",
+                                            name="R1 GenSpectralLemmas %s" % fam,
+                                            subst=gen_subst(fam, ctx.tier, ctx.seed, GEN_LEMMA), workers=2))
+                  for fam in GEN])
 
     # ---- R2: planted instances replayed into gonum --------------------------------------------------
     def one(fam):
         cases = ctx.gen("spectral/PlantedSpectral.tla", "spectral/PlantedSpectral.cfg", name="R2 gen planted %s" % fam,
                         subst=dict(FAM=fam, SMALL=SMALL[fam][ctx.tier], BIG=enc(BIG[fam][ctx.tier]), SEED=ctx.seed))
-        for bn, _ in builds:
-            ctx.replay(bins[bn], "spectral", cases, [], name="R2 replay %s [%s]" % (fam, bn))
+        # the replays of one family are independent of each other: a nested pool
+        jobs = [(lambda bn=bn: ctx.replay(bins[bn], "spectral", cases, [], name="R2 replay %s [%s]" % (fam, bn)))
+                for bn, _ in builds]
         # the same instances with the block size / crossover of the reductions (Dsytrd, Dorgtr, Dgebrd,
         # Dorgbr, Dgehrd, Dorghr, Dgeqrf, ...) forced small: blocked code runs on every small shape
-        for nb, nx in FORCED[ctx.tier]:
-            ctx.replay(bins["default"], "spectral", cases, ["nb=%d" % nb, "nx=%d" % nx],
-                       name="R2 replay %s nb=%d nx=%d [default]" % (fam, nb, nx))
+        jobs += [(lambda nb=nb, nx=nx: ctx.replay(bins["default"], "spectral", cases, ["nb=%d" % nb, "nx=%d" % nx],
+                                                  name="R2 replay %s nb=%d nx=%d [default]" % (fam, nb, nx)))
+                 for nb, nx in FORCED[ctx.tier]]
+        ctx.parallel(jobs, width=4 if fam == "svd" else 2)
 
     def cond(fam):
         small, big = COND[fam][ctx.tier]
@@ -77,9 +109,16 @@ def run(ctx):
                         subst=dict(FAM=fam, SMALL=small, BIG="{" + ", ".join(map(str, big)) + "}", SEED=ctx.seed))
         for bn, _ in builds:
             ctx.replay(bins[bn], "spectral", cases, [], name="R2 replay %s [%s]" % (fam, bn))
+
+    def general(fam):
+        cases = ctx.gen("spectral/GenSpectral.tla", "spectral/GenSpectral.cfg", name="R2g gen generalized %s" % fam,
+                        subst=gen_subst(fam, ctx.tier, ctx.seed))
+        for bn, _ in builds:
+            ctx.replay(bins[bn], "spectral", cases, [], name="R2g replay %s [%s]" % (fam, bn))
     # R1 and R2 stages are independent: one pool, the long generators first
-    ctx.parallel([(lambda fam=fam: one(fam)) for fam in ("gev", "svd", "sym")] + r1
-                 + [(lambda fam=fam: cond(fam)) for fam in COND], width=6)
+    ctx.parallel([(lambda fam=fam: one(fam)) for fam in ("svd", "gev", "sym")] + r1
+                 + [(lambda fam=fam: general(fam)) for fam in GEN]
+                 + [(lambda fam=fam: cond(fam)) for fam in COND], width=7)
 
     ctx.assumptions += [
         "TLC/SANY and the CommunityModules Json module are trusted",
@@ -91,11 +130,19 @@ def run(ctx):
         "error/tolerance ratios are recorded in the stage details (max_err_over_tol_*)",
         "block sizes: default Ilaenv, and nb/nx forced through the verif-tagged verifhook.Ilaenv override; the override "
         "changes which path runs, never what is expected",
+        "generalized routines and the all-vector identities of the planted families (weaker binding): the acceptance "
+        "predicates are stated in GenPred.tla and evaluated by the harness's mirror functions (genpred.go) in exact dyadic "
+        "arithmetic (math/big.Int mantissa * 2^e, cross-checked against math/big.Rat by a unit test); that the mirror is a "
+        "faithful transcription is trusted, TLC checks the predicates only on exactly known decompositions and mutations",
+        "Dggsvp3 / Dggsvd3: for the integer instances (entries -3..3, dimensions <= 5) the numerical rank with the documented "
+        "tola / tolb is the exact rank (checked against a tree in which Dgeqp3 really pivots: every instance passes)",
     ]
     return ctx.finish(
         rule="one case = one call of a gonum routine (one routine x job x ld x lwork variant, or one workspace query, or "
              "one composition such as Dsytrd+Dorgtr+Dsteqr) on one spec-generated instance, every output compared with "
-             "the specification's values; non-trivial = the instance has min(m,n) >= 2 (svd) / n >= 3 (sym, gev)",
+             "the specification's values or judged by the specification's acceptance predicate; non-trivial = the instance "
+             "has min(m,n) >= 2 (svd) / n >= 3 (sym, gev, Dtrevc3) / ihi-ilo >= 2 (Dgghrd) / min(m,p,n) >= 2 (Dggsvp3, "
+             "Dggsvd3) / l >= 2 and m-k >= 2 (Dtgsja)",
         exhaustive=False)
 
 
